@@ -262,6 +262,50 @@ func init() {
 				c.Run.Sample(map[string]any{"pattern": pats[i], "rule": pats[i] + "$domain=example.org"})
 			}
 		})
+		// corpus layer: the basic patterns of the bundled real-world lists
+		stride := 25
+		if c.Thorough() {
+			stride = 1
+		}
+		seenPat := map[string]bool{}
+		type cp struct {
+			p  string
+			mc bool
+		}
+		var corpus []cp
+		for _, rel := range []string{"testdata/easylist.txt", "examples/proxy/adguard_russian_filter.txt", "testdata/adguard_sdn_filter.txt"} {
+			for _, l := range corpusLines(rel) {
+				r, err := rules.NewRule(l, 1)
+				nr, ok := r.(*rules.NetworkRule)
+				if err != nil || !ok || nr.IsRegexRule() {
+					continue
+				}
+				p := rules.VerifPattern(nr)
+				mc := nr.IsOptionEnabled(rules.OptionMatchCase)
+				if k := fmt.Sprint(mc, p); !seenPat[k] && len(p) <= 80 {
+					seenPat[k] = true
+					corpus = append(corpus, cp{p, mc})
+				}
+			}
+		}
+		var corpusChecked atomic.Int64
+		var picked []cp
+		for i := 0; i < len(corpus); i += stride {
+			picked = append(picked, corpus[i])
+		}
+		before := cnt.patterns.Load()
+		c.parallel(len(picked), func(i int) {
+			if c.Expired() {
+				mu.Lock()
+				exhaustive = false
+				mu.Unlock()
+				return
+			}
+			c03CheckPattern(c, picked[i].p, picked[i].mc, cnt, alphabet)
+			corpusChecked.Add(1)
+		})
+		c.Run.Set("corpus_distinct_patterns", int64(len(corpus)))
+		c.Run.Set("corpus_patterns_checked", cnt.patterns.Load()-before)
 		c.Run.Set("patterns_enumerated", int64(len(pats)*3))
 		c.Run.Set("patterns_checked", cnt.patterns.Load())
 		c.Run.Set("patterns_rejected_by_parser", cnt.rejected.Load())
